@@ -60,6 +60,8 @@ CORPUS = [
     # seeded C03-b: server 0 holds a damaged share (sh0, DEAD) and an intact one (sh1) that is still unused when sh0
     # dies (diversity limit: server 1's sh2 is active); sh1 + sh2 are k = 2 good share numbers
     (2, ["a:0.2.1.0", "l", "a:1.0.0.1,2.1.0.1", "l", "s:1:D", "l", "n", "l", "s:0:C", "s:2:C", "l", "l"]),
+    # seeded C46-e: two copies of share 0 only (k = 2): after the block of share 0 the unused duplicate is no way forward
+    (2, ["a:0.0.0.0,1.0.1.1", "l", "n", "l", "s:0:C", "l"]),
     # past harness disagreements: the same share object announced again after no_more_shares
     (2, ["a:-", "l", "a:0.1.0.3,1.0.0.2", "l", "n", "s:0:O", "a:1.0.0.2", "l", "s:0:C", "l", "l", "s:1:D", "l", "l"]),
     (2, ["a:2.0.4.3,3.0.1.0,0.0.3.1,1.1.0.1", "l", "s:1:O", "n", "l", "l", "s:3:C", "a:1.1.0.1", "l", "s:1:C", "b", "l",
@@ -283,6 +285,20 @@ def run(ctx):
         late.append(fc.gen_late_error_scenario(None, canonical=True))      # corpus: minimised history
         for i in range(B(30, 700)):
             late.append(fc.gen_late_error_scenario(ctx.rng))
+    # ---- ShareFinder scripts (real class, fake servers)
+    if ctx.replay:
+        c = ctx.replay.get("case") or ((ctx.replay.get("correspondence_disagreements") or [{}])[0].get("case")) or {}
+        fdc = ([c], [";".join(fc.replay_finder_script((c["params"][0], c["params"][1]), c["toks"]))],
+               ["finder %d %s %s" % (c["params"][0], ",".join(map(str, c["params"][1])) or "-", " ".join(c["toks"]))]) \
+            if c.get("kind") == "finder" else ([], [], [])
+    else:
+        fdc = fc.finder_family(ctx, B(400, 10000))
+    if fdc[2]:
+        fmodel = ctx.model(fdc[2])
+        if fmodel is not None:
+            ctx.compare("ShareFinder script: calls (send / got_shares / no_more_shares), running, hungry, iterator exhausted, "
+                        "pending, overdue, timers, queued loops after every event", fdc[0], fdc[1],
+                        [";".join(fc.strip_finder_digest(x) for x in m.split(";")) for m in fmodel])
     model = ctx.model(lines) if lines else None
     if model is not None:
         ctx.compare("SegmentFetcher script: calls, _shares, _shares_from_server, _active_share_map, _overdue_share_map, "
